@@ -7,6 +7,7 @@ AS_H = 'src/tbb/arena_slot.h'
 TD_CPP = 'src/tbb/task_dispatcher.cpp'
 PF_H = 'include/oneapi/tbb/parallel_for.h'
 MB_H = 'src/tbb/mailbox.h'
+PT_H = 'include/oneapi/tbb/partitioner.h'
 TGC_CPP = 'src/tbb/task_group_context.cpp'
 CD_H = 'src/tbb/cancellation_disseminator.h'
 TDH = 'src/tbb/task_dispatcher.h'
@@ -212,6 +213,38 @@ MUTANTS = [
     dict(name='c04-reset-elsewhere', prop='C04', clause='D2', edits=[
         (TGC_CPP, "bool task_group_context_impl::is_group_execution_cancelled(const d1::task_group_context& ctx) {\n",
          "bool task_group_context_impl::is_group_execution_cancelled(const d1::task_group_context& ctx) {\n    if (ctx.my_parent && !ctx.my_parent->my_cancellation_requested.load(std::memory_order_relaxed)) const_cast<d1::task_group_context&>(ctx).my_cancellation_requested.store(0, std::memory_order_relaxed);\n")]),
+    # ---------------------------------------------------------------- C05
+    dict(name='c05-simple-do-while', prop='C05', clause='D1', edits=[
+        (PT_H, "        while( range.is_divisible() )\n            start.offer_work( split_obj, ed );", "        do {\n            start.offer_work( split_obj, ed );\n        } while( range.is_divisible() );")]),
+    dict(name='c05-split-without-recheck', prop='C05', clause='D1', edits=[
+        (PT_H, "                    start.offer_work( split_obj, ed );\n                } while ( range.is_divisible() && self().is_divisible() );",
+         "                    start.offer_work( split_obj, ed );\n                } while ( self().is_divisible() );")]),
+    dict(name='c05-pool-split-ignores-range', prop='C05', clause='D1', edits=[
+        (PT_H, "        return back_depth() < max_depth && back().is_divisible();", "        return back_depth() < max_depth;")]),
+    dict(name='c05-scan-split-undivisible', prop='C05', clause='D1', edits=[
+        ('include/oneapi/tbb/parallel_scan.h', "    if( (m_is_right_child && !treat_as_stolen) || !m_range.is_divisible() || m_partition.should_execute_range(ed) ) {",
+         "    if( (m_is_right_child && !treat_as_stolen) || m_partition.should_execute_range(ed) ) {")]),
+    dict(name='c05-2d-wrong-dimension', prop='C05', clause='D2', edits=[
+        ('include/oneapi/tbb/blocked_range2d.h', "            my_cols.my_begin = col_range_type::do_split(r.my_cols, split_obj);", "            my_cols.my_begin = col_range_type::do_split(r.my_rows, split_obj);")]),
+    dict(name='c05-decl-order-swap', prop='C05', clause='D2', edits=[
+        ('include/oneapi/tbb/blocked_range.h', "    Value my_end;\n    Value my_begin;\n    size_type my_grainsize;", "    Value my_begin;\n    Value my_end;\n    size_type my_grainsize;")]),
+    dict(name='c05-do_split-off-by-one', prop='C05', clause='D2', edits=[
+        ('include/oneapi/tbb/blocked_range.h', "        r.my_end = middle;\n        return middle;", "        r.my_end = middle;\n        return middle + 1;")]),
+    dict(name='c05-3d-missing-dimension-copy', prop='C05', clause='D2', edits=[
+        ('include/oneapi/tbb/blocked_range3d.h', "    blocked_range3d( blocked_range3d& r, proportional_split& proportion ) :\n        my_pages(r.my_pages),\n        my_rows(r.my_rows),\n        my_cols(r.my_cols)",
+         "    blocked_range3d( blocked_range3d& r, proportional_split& proportion ) :\n        my_pages(r.my_pages),\n        my_rows(r.my_rows),\n        my_cols(r.my_rows)")]),
+    dict(name='c05-invoke-reserve-2', prop='C05', clause='D4', edits=[
+        ('include/oneapi/tbb/parallel_invoke.h', "    root_wait_ctx.reserve(3);", "    root_wait_ctx.reserve(2);")]),
+    dict(name='c05-subroot-add-2', prop='C05', clause='D4', edits=[
+        ('include/oneapi/tbb/parallel_invoke.h', "        ref_count.fetch_add(3, std::memory_order_relaxed);", "        ref_count.fetch_add(2, std::memory_order_relaxed);")]),
+    dict(name='c05-block-missing-reserve', prop='C05', clause='D4', edits=[
+        ('include/oneapi/tbb/parallel_for_each.h', "        for(std::size_t counter = 1; counter < my_size; ++counter) {\n            my_wait_context.reserve();\n            spawn(*(task_pool.begin() + counter), my_execution_context);",
+         "        for(std::size_t counter = 1; counter < my_size; ++counter) {\n            spawn(*(task_pool.begin() + counter), my_execution_context);")]),
+    dict(name='c05-run-without-empty-check', prop='C05', clause='D3', edits=[
+        ('include/oneapi/tbb/parallel_for.h', "    static void run(const Range& range, const Body& body, Partitioner& partitioner, task_group_context& context) {\n        if ( !range.empty() ) {",
+         "    static void run(const Range& range, const Body& body, Partitioner& partitioner, task_group_context& context) {\n        {")]),
+    dict(name='c05-pool-pop-without-run', prop='C05', clause='D3', edits=[
+        (PT_H, "                start.run_body( range_pool.back() );\n                range_pool.pop_back();", "                if (range_pool.size() < 7) start.run_body( range_pool.back() );\n                range_pool.pop_back();")]),
 ]
 
 BENIGN = [
@@ -234,4 +267,6 @@ BENIGN = [
     dict(name='c04-b-cas-instead-of-exchange', prop='C04', edits=[
         (TGC_CPP, "if (ctx.my_cancellation_requested.load(std::memory_order_relaxed) || ctx.my_cancellation_requested.exchange(1)) {",
          "std::uint32_t exp0 = 0;\n    if (ctx.my_cancellation_requested.load(std::memory_order_relaxed) || !ctx.my_cancellation_requested.compare_exchange_strong(exp0, 1)) {")]),
+    dict(name='c05-b-extra-divisible-check', prop='C05', edits=[
+        (PT_H, "        while( range.is_divisible() )\n            start.offer_work( split_obj, ed );", "        while( range.is_divisible() ) {\n            if (!range.is_divisible()) break;\n            start.offer_work( split_obj, ed );\n        }")]),
 ]
